@@ -1274,8 +1274,8 @@ func Run(t *tr.W, thorough bool) {
 	budget := tr.EnvInt("VERIF_BUDGET", 1)
 	ncases := 260 * budget
 	if thorough {
-		ncases = 4000 * budget
-		tickBudget = 1500 * budget
+		ncases = 1000 * budget
+		tickBudget = 250 * budget
 	} else {
 		tickBudget = 45 * budget
 	}
